@@ -4,6 +4,7 @@ use crate::common::*;
 use crate::srv::{err_json, ident, payload_for};
 use bytes::Bytes;
 use futures_util::StreamExt;
+use iggy::client::{ConsumerOffsetClient, TopicClient};
 use iggy::clients::client::IggyClient;
 use iggy::clients::consumer::{AutoCommit, AutoCommitAfter, AutoCommitWhen, IggyConsumer, ReceivedMessage};
 use iggy::consumer_ext::{IggyConsumerMessageExt, MessageConsumer};
@@ -263,6 +264,33 @@ pub async fn consume(c: &IggyClient, op: &Value) -> Value {
         tokio::time::sleep(linger).await;
         drop(consumer);
     }
+    // the dropped consumer's store channel drains in the background: wait until the committed offsets stand still
     tokio::time::sleep(settle).await;
+    let consumer = match op.get("partition").and_then(|v| v.as_u64()) {
+        Some(_) => iggy::consumer::Consumer::new(s(op, "name").try_into().unwrap()),
+        None => iggy::consumer::Consumer::group(s(op, "name").try_into().unwrap()),
+    };
+    let stream: Identifier = s(op, "stream").try_into().unwrap();
+    let topic: Identifier = s(op, "topic").try_into().unwrap();
+    let parts = match c.get_topic(&stream, &topic).await {
+        Ok(Some(t)) => t.partitions_count,
+        _ => 0,
+    };
+    let mut last: Option<Vec<Option<u64>>> = None;
+    let mut stable = 0;
+    let started = std::time::Instant::now();
+    while stable < 3 && started.elapsed() < Duration::from_secs(5) {
+        let mut snap = vec![];
+        for p in 1..=parts {
+            snap.push(c.get_consumer_offset(&consumer, &stream, &topic, Some(p)).await.ok().flatten().map(|o| o.stored_offset));
+        }
+        if last.as_ref() == Some(&snap) {
+            stable += 1;
+        } else {
+            stable = 0;
+            last = Some(snap);
+        }
+        tokio::time::sleep(Duration::from_millis(40)).await;
+    }
     json!({"r": "ok", "yielded": got, "ended": ended, "errs": errs})
 }
